@@ -417,6 +417,13 @@ def r6(ctx, lib):
         vals = []
         if src:
             vals = [v for v in cvals(lib, b, src[0].args[0]) if v in ('"^"', '"$"')]
+            if not vals:
+                # the same text assembled by `format!("^{grouped}$")`: the literal pieces of the template around the one interpolated value
+                for k_ in backslice(b, [src[0].args[0]]).calls:
+                    sn_ = k_.t.get('snip') or ''
+                    m_ = re.match(r'^format!\("(\^?)\{[^{}]*\}(\$?)"\s*(,.*)?\)$', sn_)
+                    if m_ and k_.matches(r'^std::fmt::format$|alloc::fmt::format$'):
+                        vals = (['"^"'] if m_.group(1) else []) + (['"$"'] if m_.group(2) else [])
         ok = sorted(set(vals)) == sorted(want)
         ctx.check(ok, rule, '%s|%s' % (b.path, field), (src[0].where() if src else b.where()), '%s = %s + pattern%s' % (field, '^', ' + $' if '"$"' in want else ''),
                   '%s is built with anchors %s, expected %s' % (field, sorted(set(vals)), want))
